@@ -47,6 +47,7 @@ from spacepackets.uslp.header import PrimaryHeader, TruncatedPrimaryHeader
 import props.c02 as c02
 import props.c03 as c03
 import props.c06_fixed as c06
+import props.c06_var as c6v
 import props.c07 as c07
 import props.c17 as c17
 
@@ -265,100 +266,97 @@ class FrameKind(Kind):
         return c17._frame_fields(x) == c17._frame_fields(y)
 
 
-# ---- stage-2 kinds: real classes, implementation-side self-checks only until their Lean models arrive ----
-def _entity(v) -> Optional[EntityIdTlv]:
-    return None if v is None else EntityIdTlv(_data(v))
+# ---- EOF, Finished, Metadata: argument formats and builders of props/c06_var.py ----
+def _expand(v):
+    """{"fill": item, "n": k} stands for a list of k copies of item"""
+    if isinstance(v, dict) and "fill" in v:
+        return [v["fill"]] * v["n"]
+    return v
 
 
-def _resp(r) -> FileStoreResponseTlv:
-    return FileStoreResponseTlv(action_code=FilestoreActionCode(r["action"]),
-                                status_code=FilestoreResponseStatusCode(r["status"]),
-                                first_file_name=r["first"], second_file_name=r["second"],
-                                filestore_msg=CfdpLv(_data(r["msg"])))
-
-
-def _resps(v):
-    if v is None:
-        return None
-    if isinstance(v, dict):
-        return [_resp(v["fill"]) for _ in range(v["n"])]
-    return [_resp(r) for r in v]
-
-
-def _opts(v):
-    if v is None:
-        return None
-    if isinstance(v, dict):
-        return [CfdpTlv(TlvType(v["fill"]["type"]), _data(v["fill"]["value"])) for _ in range(v["n"])]
-    return [CfdpTlv(TlvType(o["type"]), _data(o["value"])) for o in v]
+def _fault_len(t) -> Optional[int]:
+    return None if t is None else len(t.value)
 
 
 class EofKind(CfdpKind):
-    op = "c11_selfcheck"
-    modelled = False
+    op = "c11_eof"
 
     def build(self, a):
-        p = EofPdu(pdu_conf=c06._conf(a), file_checksum=unhx(a["checksum"]), file_size=a["size"],
-                   fault_location=_entity(a["fault"]), condition_code=ConditionCode(a["cond"]))
+        p = c6v._eof(a)
         return EofPdu.unpack(bytes(p.pack())) if a["via_unpack"] else p
 
-    def apply(self, p, s): p.fault_location = _entity(s["fault"])
+    def apply(self, p, s): p.fault_location = c6v._fault(s["v"])
+
+    def extra(self, p):
+        e = _hdr_extra(p.pdu_header)
+        e["fault_len"] = _fault_len(p.fault_location)
+        return e
 
     def fresh(self, p):
         fl = p.fault_location
         return EofPdu(_conf_of(p.pdu_header), bytes(p.file_checksum), int(p.file_size),
-                      None if fl is None else EntityIdTlv(bytes(fl.value)), ConditionCode(int(p.condition_code)))
+                      None if fl is None else EntityIdTlv(bytes(fl.value)), c6v._enum(ConditionCode, int(p.condition_code)))
 
 
 class FinishedKind(CfdpKind):
-    op = "c11_selfcheck"
-    modelled = False
+    op = "c11_fin"
 
     def build(self, a):
-        params = FinishedParams(condition_code=ConditionCode(a["cond"]), delivery_code=DeliveryCode(a["delivery"]),
-                                file_status=FileStatus(a["status"]), file_store_responses=_resps(a["responses"]),
-                                fault_location=_entity(a["fault"]))
-        p = FinishedPdu(pdu_conf=c06._conf(a), params=params)
+        p = c6v._fin(a)
         return FinishedPdu.unpack(bytes(p.pack())) if a["via_unpack"] else p
 
     def apply(self, p, s):
         if s["set"] == "responses":
-            p.file_store_responses = _resps(s["responses"])
+            v = _expand(s["v"])
+            p.file_store_responses = None if v is None else [c6v._fsresp(r) for r in v]
         elif s["set"] == "fault":
-            p.fault_location = _entity(s["fault"])
+            p.fault_location = c6v._fault(s["v"])
         else:
-            p.condition_code = ConditionCode(s["cond"])
+            p.condition_code = c6v._enum(ConditionCode, s["v"])
+
+    def extra(self, p):
+        e = _hdr_extra(p.pdu_header)
+        rs = p.file_store_responses
+        e.update(fault_len=_fault_len(p.fault_location), nresp=0 if rs is None else len(rs), cond=int(p.condition_code))
+        return e
 
     def fresh(self, p):
         fl = p.fault_location
         rs = p.file_store_responses
-        params = FinishedParams(ConditionCode(int(p.condition_code)), DeliveryCode(int(p.delivery_code)),
+        params = FinishedParams(c6v._enum(ConditionCode, int(p.condition_code)), DeliveryCode(int(p.delivery_code)),
                                 FileStatus(int(p.file_status)),
                                 None if rs is None else [FileStoreResponseTlv.unpack(bytes(r.pack())) for r in rs],
                                 None if fl is None else EntityIdTlv(bytes(fl.value)))
         return FinishedPdu(_conf_of(p.pdu_header), params)
 
 
+def _lv_len(name: Optional[str]) -> int:
+    return 0 if name is None else len(name.encode())
+
+
 class MetadataKind(CfdpKind):
-    op = "c11_selfcheck"
-    modelled = False
+    op = "c11_md"
 
     def build(self, a):
-        params = MetadataParams(closure_requested=bool(a["closure"]), checksum_type=ChecksumType(a["cks"]),
-                                file_size=a["size"], source_file_name=a["source"], dest_file_name=a["dest"])
-        p = MetadataPdu(pdu_conf=c06._conf(a), params=params, options=_opts(a["options"]))
+        p = c6v._md(a)
         return MetadataPdu.unpack(bytes(p.pack())) if a["via_unpack"] else p
 
     def apply(self, p, s):
         if s["set"] == "options":
-            p.options = _opts(s["options"])
-        elif s["set"] == "source":
-            p.source_file_name = s["name"]
+            p.options = c6v._options(_expand(s["v"]))
+        elif s["set"] == "src":
+            p.source_file_name = c6v._opt_name(s["v"])
         else:
-            p.dest_file_name = s["name"]
+            p.dest_file_name = c6v._opt_name(s["v"])
+
+    def extra(self, p):
+        e = _hdr_extra(p.pdu_header)
+        o = p.options
+        e.update(src_len=_lv_len(p.source_file_name), dst_len=_lv_len(p.dest_file_name), nopts=None if o is None else len(o))
+        return e
 
     def fresh(self, p):
-        params = MetadataParams(bool(p.closure_requested), ChecksumType(int(p.checksum_type)), int(p.file_size),
+        params = MetadataParams(bool(p.closure_requested), c6v._enum(ChecksumType, int(p.checksum_type)), int(p.file_size),
                                 p.source_file_name, p.dest_file_name)
         o = p.options
         return MetadataPdu(_conf_of(p.pdu_header), params,
@@ -445,7 +443,7 @@ def _seq_op(name: str):
 
 
 def op_selfcheck(a):
-    """stage-2 kinds (no Lean state machine yet): the same observations, checked on the real code alone"""
+    """implementation-side only variant (kept for replay files written before the EOF / Finished / Metadata models existed)"""
     _run(KINDS[a["kind"]], a)
     return {"held": True}
 
@@ -520,17 +518,19 @@ def _inputs_builders():
 
     def eof(a, conf):
         cks = bytearray(unhx(a["checksum"])) if a.get("mutable") else unhx(a["checksum"])
-        fl = _entity(a["fault"])
-        return [cks, fl], lambda: EofPdu(conf, cks, a["size"], fl, ConditionCode(a["cond"]))
+        fl = c6v._fault(a["fault"])
+        return [cks, fl], lambda: EofPdu(conf, cks, a["size"], fl, c6v._enum(ConditionCode, a["cond"]))
 
     def finished(a, conf):
-        params = FinishedParams(ConditionCode(a["cond"]), DeliveryCode(a["delivery"]), FileStatus(a["status"]),
-                                _resps(a["responses"]), _entity(a["fault"]))
+        rs = None if a.get("none_responses") else [c6v._fsresp(r) for r in a["responses"]]
+        params = FinishedParams(c6v._enum(ConditionCode, a["cond"]), DeliveryCode(a["delivery"]), FileStatus(a["status"]),
+                                rs, c6v._fault(a["fault"]))
         return [params], lambda: FinishedPdu(conf, params)
 
     def metadata(a, conf):
-        params = MetadataParams(bool(a["closure"]), ChecksumType(a["cks"]), a["size"], a["source"], a["dest"])
-        opts = _opts(a["options"])
+        params = MetadataParams(bool(a["closure"]), c6v._enum(ChecksumType, a["ctype"]), a["size"], c6v._opt_name(a["src"]),
+                                c6v._opt_name(a["dst"]))
+        opts = c6v._options(a["options"])
         return [params, opts], lambda: MetadataPdu(conf, params, opts)
 
     def fd(a, conf):
@@ -604,6 +604,12 @@ def op_conf(a):
         p = _build(lambda: NakPdu(conf, 0, 0, []), "constructor")
     elif a["kind"] == "keepalive":
         p = _build(lambda: KeepAlivePdu(conf, 0), "constructor")
+    elif a["kind"] == "eof":
+        p = _build(lambda: EofPdu(conf, bytes(4), 0), "constructor")
+    elif a["kind"] == "finished":
+        p = _build(lambda: FinishedPdu(conf, FinishedParams(ConditionCode.NO_ERROR, DeliveryCode(0), FileStatus(0))), "constructor")
+    elif a["kind"] == "metadata":
+        p = _build(lambda: MetadataPdu(conf, MetadataParams(False, ChecksumType(0), 0, None, None)), "constructor")
     else:
         p = _build(lambda: FileDataPdu(conf, FileDataParams.empty()), "constructor")
     if _snap_conf(conf) != before:
@@ -620,7 +626,8 @@ def op_conf(a):
 
 
 OPS = {"c11_tc": _seq_op("tc"), "c11_tm": _seq_op("tm"), "c11_nak": _seq_op("nak"), "c11_ka": _seq_op("ka"),
-       "c11_fd": _seq_op("fd"), "c11_frame": _seq_op("frame"), "c11_selfcheck": op_selfcheck,
+       "c11_fd": _seq_op("fd"), "c11_frame": _seq_op("frame"), "c11_eof": _seq_op("eof"), "c11_fin": _seq_op("finished"),
+       "c11_md": _seq_op("metadata"), "c11_selfcheck": op_selfcheck,
        "c11_inputs": op_inputs, "c11_conf": op_conf}
 
 
@@ -832,110 +839,100 @@ class FrameGen(Gen):
                 [S, T(M - 8), S, T(M - 12), S]]
 
 
-def _rand_entity(rng):
+def _fault_arg(rng):
     # entity IDs have 1, 2, 4 or 8 octets (EntityIdTlv.__eq__ converts them to integer fields of these widths)
-    return rng.choice([None, hx(rbytes(rng, rng.choice([1, 2, 4, 8])))])
+    return rng.choice([None, hx(c6v.rand_fault(rng))])
 
 
-_STATUS_BY_ACTION: Dict[int, List[int]] = {}
-for _m in FilestoreResponseStatusCode:
-    if int(_m) >= 0 and any(int(_a) == int(_m) >> 4 for _a in FilestoreActionCode):
-        _STATUS_BY_ACTION.setdefault(int(_m) >> 4, []).append(int(_m))
-
-
-def _rand_resp(rng, long: bool = False):
-    action = rng.choice(sorted(_STATUS_BY_ACTION))
-    code = rng.choice(_STATUS_BY_ACTION[action])
-    n1 = rng.choice([0, 1, 5, 200 if long else 9])
-    return {"action": action, "status": code, "first": "".join(rng.choice("abcxyz/._é") for _ in range(n1)),
-            "second": "".join(rng.choice("abcxyz/._") for _ in range(rng.choice([0, 1, 6]))),
-            "msg": hx(rbytes(rng, rng.choice([0, 0, 1, 4, 40 if long else 7])))}
+BIG_RESP = {"action": 0, "status": 0, "first": hx(b"a" * 200), "second": "", "msg": hx(bytes(40))}      # a 245-octet TLV
+BIG_OPT = {"kind": "generic", "type": 2, "value": hx(bytes([3]) * 255)}                                 # a 257-octet TLV
 
 
 class EofGen(Gen):
     def init(self, rng, **fix):
         a = c06.rand_conf(rng, **{k: v for k, v in fix.items() if k in ("crc", "large", "idw", "sw")})
-        a.update(kind="eof", checksum=hx(rbytes(rng, 4)), size=c06.fss_val(rng, a["large"]), fault=_rand_entity(rng),
+        a.update(checksum=hx(c6v.rand_checksum(rng)), size=c06.fss_val(rng, a["large"]), fault=_fault_arg(rng),
                  cond=rng.choice(c06.COND_MEMBERS), via_unpack=fix.get("via", rng.random() < 0.3))
         return a
 
-    def step(self, rng, a, big): return {"fault": _rand_entity(rng)}
-    def pool(self, rng, a): return [{"fault": None}, {"fault": "07"}, {"fault": hx(rbytes(rng, 8))}, {"fault": hx(rbytes(rng, 2))}]
+    def step(self, rng, a, big): return {"set": "fault", "v": _fault_arg(rng)}
+
+    def pool(self, rng, a):
+        return [{"set": "fault", "v": None}, {"set": "fault", "v": "07"}, {"set": "fault", "v": hx(c6v.rand_fault(rng, 8))},
+                {"set": "fault", "v": hx(c6v.rand_fault(rng, 2))}]
 
 
 class FinishedGen(Gen):
     def init(self, rng, **fix):
         a = c06.rand_conf(rng, **{k: v for k, v in fix.items() if k in ("crc", "large", "idw", "sw")})
-        a.update(kind="finished", cond=rng.choice(c06.COND_MEMBERS), delivery=rng.randint(0, 1), status=rng.randint(0, 3),
-                 responses=rng.choice([None, [], [_rand_resp(rng) for _ in range(rng.randint(1, 3))]]),
-                 fault=rng.choice([None, hx(rbytes(rng, rng.choice([1, 2, 4, 8])))]),
+        a.update(cond=rng.choice(c06.COND_MEMBERS), delivery=rng.randint(0, 1), status=rng.randint(0, 3),
+                 responses=rng.choice([[], [], [c6v.rand_resp(rng) for _ in range(rng.randint(1, 3))]]), fault=_fault_arg(rng),
                  via_unpack=fix.get("via", rng.random() < 0.3))
+        if a["via_unpack"] and a["cond"] in c6v.NO_FAULT_CONDS:
+            a["fault"] = None          # a fault location that is not packed cannot come back from the decoder
         return a
 
     def step(self, rng, a, big):
         r = rng.random()
         if r < 0.3:
-            return {"set": "fault", "fault": rng.choice([None, hx(rbytes(rng, rng.choice([1, 2, 4, 8])))])}
+            return {"set": "fault", "v": _fault_arg(rng)}
         if r < 0.5:
-            return {"set": "cond", "cond": rng.choice(c06.COND_MEMBERS + [0, 0, 11, 11])}
+            return {"set": "cond", "v": rng.choice(c06.COND_MEMBERS + [0, 0, 11, 11])}
         if r < 0.5 + big:
-            return {"set": "responses", "responses": {"fill": _rand_resp(rng, True), "n": rng.choice([250, 300, 400, 2000])}}
-        return {"set": "responses", "responses": rng.choice([None, [], [_rand_resp(rng) for _ in range(rng.randint(1, 4))]])}
+            return {"set": "responses", "v": {"fill": BIG_RESP, "n": rng.choice([250, 267, 268, 300, 2000])}}
+        return {"set": "responses", "v": rng.choice([None, [], [c6v.rand_resp(rng) for _ in range(rng.randint(1, 4))]])}
 
     def pool(self, rng, a):
-        big = {"action": 0, "status": 0, "first": "a" * 200, "second": "", "msg": hx(bytes(40))}
-        return [{"set": "fault", "fault": None}, {"set": "fault", "fault": "0102"}, {"set": "cond", "cond": 0},
-                {"set": "cond", "cond": 4}, {"set": "responses", "responses": []},
-                {"set": "responses", "responses": [_rand_resp(rng)]}, {"set": "responses", "responses": {"fill": big, "n": 300}}]
+        return [{"set": "fault", "v": None}, {"set": "fault", "v": "0102"}, {"set": "cond", "v": 0}, {"set": "cond", "v": 4},
+                {"set": "responses", "v": []}, {"set": "responses", "v": [c6v.rand_resp(rng)]},
+                {"set": "responses", "v": {"fill": BIG_RESP, "n": 300}}]
 
     def boundary(self, rng, a):
-        big = {"action": 0, "status": 0, "first": "a" * 200, "second": "", "msg": hx(bytes(40))}       # 245 octets
-        return [[{"set": "responses", "responses": {"fill": big, "n": 267}}, {"set": "cond", "cond": 4},
-                 {"set": "fault", "fault": fill(8, 9)}, {"set": "responses", "responses": {"fill": big, "n": 268}},
-                 {"set": "cond", "cond": 0}, {"set": "fault", "fault": fill(8, 9)}, {"set": "cond", "cond": 4},
-                 {"set": "responses", "responses": None}]]
+        R = lambda n: {"set": "responses", "v": {"fill": BIG_RESP, "n": n}}  # noqa
+        F = {"set": "fault", "v": hx(bytes([9]) * 8)}
+        return [[R(267), {"set": "cond", "v": 4}, F, R(268), {"set": "cond", "v": 0}, F, {"set": "cond", "v": 4},
+                 {"set": "responses", "v": None}, F]]
 
 
 def _rand_opts(rng):
     if rng.random() < 0.3:
         return None
-    return [{"type": rng.choice([0, 1, 2, 4, 5, 6]), "value": hx(rbytes(rng, rng.choice([0, 1, 2, 9, 40])))}
-            for _ in range(rng.randint(0, 3))]
+    return c6v.rand_options(rng, rng.randint(0, 3))
 
 
 def _rand_name(rng):
-    return rng.choice([None, "", "a", "/tmp/x.bin", "é/ü", "n" * 255, "".join(rng.choice("abc/._") for _ in range(rng.randint(1, 30)))])
+    if rng.random() < 0.15:
+        return None
+    return hx(rng.choice([c6v.rand_name(rng), c6v.name_exact(rng, 255), b"a", b""]))
 
 
 class MetadataGen(Gen):
     def init(self, rng, **fix):
         a = c06.rand_conf(rng, **{k: v for k, v in fix.items() if k in ("crc", "large", "idw", "sw")})
-        a.update(kind="metadata", closure=rng.randint(0, 1), cks=rng.choice([0, 1, 2, 3, 15]), size=c06.fss_val(rng, a["large"]),
-                 source=_rand_name(rng), dest=_rand_name(rng), options=_rand_opts(rng),
-                 via_unpack=fix.get("via", rng.random() < 0.3))
+        a.update(closure=bool(rng.randint(0, 1)), ctype=rng.choice(c6v.CHECKSUM_TYPES), size=c06.fss_val(rng, a["large"]),
+                 src=_rand_name(rng), dst=_rand_name(rng), options=_rand_opts(rng), via_unpack=fix.get("via", rng.random() < 0.3))
         return a
 
     def step(self, rng, a, big):
         r = rng.random()
         if r < 0.3:
-            return {"set": "source", "name": _rand_name(rng) if rng.random() > big else "x" * 256}
+            return {"set": "src", "v": _rand_name(rng) if rng.random() > big else hx(b"x" * 256)}
         if r < 0.6:
-            return {"set": "dest", "name": _rand_name(rng) if rng.random() > big else "y" * 300}
+            return {"set": "dst", "v": _rand_name(rng) if rng.random() > big else hx(b"y" * 300)}
         if r < 0.6 + big:
-            return {"set": "options", "options": {"fill": {"type": 2, "value": fill(255, 3)}, "n": rng.choice([253, 254, 255, 256, 400])}}
-        return {"set": "options", "options": _rand_opts(rng)}
+            return {"set": "options", "v": {"fill": BIG_OPT, "n": rng.choice([253, 254, 255, 256, 400])}}
+        return {"set": "options", "v": _rand_opts(rng)}
 
     def pool(self, rng, a):
-        return [{"set": "source", "name": None}, {"set": "source", "name": "ab"}, {"set": "dest", "name": "c" * 255},
-                {"set": "dest", "name": "d" * 256}, {"set": "options", "options": None},
-                {"set": "options", "options": [{"type": 2, "value": "0102"}]},
-                {"set": "options", "options": {"fill": {"type": 2, "value": fill(255, 3)}, "n": 256}}]
+        return [{"set": "src", "v": None}, {"set": "src", "v": hx(b"ab")}, {"set": "dst", "v": hx(b"c" * 255)},
+                {"set": "dst", "v": hx(b"d" * 256)}, {"set": "options", "v": None},
+                {"set": "options", "v": [c6v.rand_option(rng)]}, {"set": "options", "v": {"fill": BIG_OPT, "n": 256}}]
 
     def boundary(self, rng, a):
-        O = lambda n: {"set": "options", "options": {"fill": {"type": 2, "value": fill(255, 3)}, "n": n}}  # noqa
-        return [[{"set": "source", "name": "s"}, {"set": "dest", "name": "d"}, O(254), {"set": "dest", "name": "y" * 255},
-                 {"set": "source", "name": "x" * 200}, O(255), O(253), {"set": "dest", "name": "y" * 255},
-                 {"set": "source", "name": None}]]
+        O = lambda n: {"set": "options", "v": {"fill": BIG_OPT, "n": n}}  # noqa
+        return [[{"set": "src", "v": hx(b"s")}, {"set": "dst", "v": hx(b"d")}, O(254), {"set": "dst", "v": hx(b"y" * 255)},
+                 {"set": "src", "v": hx(b"x" * 200)}, O(255), O(253), {"set": "dst", "v": hx(b"y" * 255)},
+                 {"set": "src", "v": None}]]
 
 
 GENS: Dict[str, Gen] = {"tc": TcGen(), "tm": TmGen(), "nak": NakGen(), "ka": KaGen(), "fd": FdGen(), "frame": FrameGen(),
@@ -948,7 +945,7 @@ def seq_case(name: str, a: Dict[str, Any], steps: List[Dict[str, Any]], tag: str
     op["op"] = kind.op
     op["steps"] = steps
     if not kind.modelled:
-        op["kind"] = name
+        op["kind"] = name     # implementation-side only kinds (none at present)
     return Case(op, "valid", tag=f"{name}-{tag}")
 
 
@@ -979,7 +976,9 @@ class C11(Prop):
         "object identity and aliasing are outside a functional model: 'the caller's objects are not modified' is carried by "
         "the tie (value snapshots of every caller-supplied PduConfig / params dataclass / TLV list / bytes before and after "
         "constructor and pack())",
-        "EOF / Finished / Metadata setter sequences are checked on the real code only until their Lean models are merged",
+        "the filestore-response TLV cache is modelled as a record of what pack() caches (no documented setter mutates a TLV "
+        "object); caches inside Metadata option objects are not modelled (== against a deep copy taken before pack() is "
+        "checked on the real objects)",
     ]
     assumptions = ["setter arguments are of the documented types (octet strings, enum members, TLV objects, lists)"]
 
@@ -1033,7 +1032,7 @@ class C11(Prop):
                     big = rng.choice([0.0, 0.05, 0.15] if thorough else [0.0, 0.0, 0.0, 0.1])
                     yield seq_case(name, a, [g.step(rng, a, big) for _ in range(n)], "random")
         # 4. caller inputs: all 512 header configurations through the three modelled constructors
-        for kind in ("nak", "keepalive", "filedata"):
+        for kind in ("nak", "keepalive", "filedata", "eof", "finished", "metadata"):
             for a in c06.all_confs(rng):
                 if not thorough and rng.random() < 0.5:
                     continue
@@ -1057,6 +1056,7 @@ class C11(Prop):
             a = GENS["eof"].init(rng)
         elif kind == "finished":
             a = GENS["finished"].init(rng)
+            a["none_responses"] = rng.random() < 0.2
         elif kind == "metadata":
             a = GENS["metadata"].init(rng)
         elif kind == "filedata":
